@@ -73,6 +73,7 @@ RULES = [
  ('is fitted to its range like any other result', 'C13', 'array-range-element-wrong/* ({=OFFSET(A1,0,0,2,4)} over a larger or smaller target read the neighbouring cells instead of repeating / filling with #N/A)'),
  ('written with leading zeros in a formula compiles', 'C02', 'number-literal/leading-zeros-* (=007, =ABS(007): python rejects the literal)'),
  ('takes a numpy number for the python number it holds', 'C10', 'arith/nonfinite-result + power/nonfinite-result + compare/result-type-numpy.bool (numpy.float64 operand: x/0 gave inf, a comparison gave numpy.bool)'),
+ ('generator of addresses gives its values also when iterative', 'C05', 'generator-of-addresses-differs (workbook saved with iterative calculation on: the generator was used up by the first pass, evaluate returned ())'),
  ('an array and an error value', 'C13', 'array-formula-member-not-pointwise/array-with-error-valued-scalar'),
 ]
 
